@@ -26,7 +26,7 @@ RULE = ('router: histories of add-rule / remove-rule / deliver-message on Messag
         'prefix-sharing sibling path, or a removal between two deliveries; distinct = distinct case JSON. Callbacks return None / True / '
         'a string / 1 / False / a fired Deferred by turns: what a callback returns has no influence on the other rules. On the client '
         'side the bus refuses the first AddMatch of every fifth rule: addMatch fails and that callback is never invoked. Rule values '
-        'include apostrophes and commas.')
+        'include apostrophes and commas. Every third callback is a bound method of an object only the subscription keeps alive.')
 ASSUMPTIONS = ['sender and arg0namespace are not in the statement and are never constrained',
                'rule values contain no apostrophe or comma (escaping is outside the statement)',
                'callbacks do not mutate the rule set while a message is being routed']
@@ -40,6 +40,16 @@ ARGVALS = ['x', 'y', '', '/a/', '/a/b', '/a/b/', '/a/bc', '/a', 'xy', '1', '2', 
            'C:\\t\\new', 'col1\tcol2', 'k=v',     # backslashes, a tab, an equals sign: literal inside the quotes of a rule
            "it's", 'a,b', "'", "say 'hi', ok"]       # apostrophes (escaped as '\\'' in a rule) and commas (literal inside quotes)
 TYPES = ['signal', 'method_call', 'method_return', 'error']
+
+
+class _Subscriber:
+    """A subscriber object nobody but the subscription refers to: `conn.addMatch(Watcher(...).on_message, ...)`."""
+
+    def __init__(self, fn):
+        self.fn = fn
+
+    def on_message(self, m):
+        return self.fn(m)
 
 
 def _cb_result(idx):
@@ -140,6 +150,8 @@ def run_router(case):
                     # what a callback RETURNS is nobody's business: truthy, falsy, a Deferred - delivery to the other
                     # rules does not depend on it
                     return _cb_result(idx)
+                if idx % 3 == 2:
+                    cb = _Subscriber(cb).on_message      # a bound method of an object only the subscription keeps alive
                 active[idx] = rt.addMatch(cb, **_router_kwargs(r))
             elif op[0] == 'remove':
                 if active:
@@ -384,6 +396,8 @@ def run_client(case):
                 def cb(m, idx=idx):
                     hits.append(idx)
                     return _cb_result(idx + 1)
+                if idx % 3 == 1:
+                    cb = _Subscriber(cb).on_message      # a bound method of an object only the subscription keeps alive
                 kw = _router_kwargs(r)
                 d = rig.conn.addMatch(cb, mtype=kw['mtype'], interface=kw['interface'], member=kw['member'],
                                       path=kw['path'], path_namespace=kw['path_namespace'],
